@@ -305,7 +305,10 @@ def judge(i, v, dst, out):
 # --------------------------------------------------------------------------
 class FakeRepo:
     """Stands for git: every ancestry question is answered 'yes'."""
+    calls = 0
+
     def cmd(self, command, *args, **kwargs):
+        FakeRepo.calls += 1
         return ''
 
     def includes_commit(self, commit):
